@@ -79,11 +79,16 @@ func newNode(dir, raw string, rt http.RoundTripper) (*node, error) {
 func (n *node) restart() (*node, error) { return newNode(n.dir, n.raw, n.rt) }
 
 func (n *node) do(method, path string, body []byte) (int, []byte) {
+	return n.doCT(method, path, body, "application/json")
+}
+
+// doCT sends the request with the given Content-Type ("none" = without the header).
+func (n *node) doCT(method, path string, body []byte, ctype string) (int, []byte) {
 	rawurl := "http://sidecar" + path
 	for i := 0; i < 4; i++ {
 		req := httptest.NewRequest(method, rawurl, bytes.NewReader(body))
-		if body != nil {
-			req.Header.Set("Content-Type", "application/json")
+		if body != nil && ctype != "none" {
+			req.Header.Set("Content-Type", ctype)
 		}
 		rec := httptest.NewRecorder()
 		n.svc.ServeHTTP(rec, req)
